@@ -126,6 +126,15 @@ func VerifC18Scenarios() {
 			})
 		})
 		spawn(func() { w.c.QueryAt(r0, func(r Row) error { r.MergeInt64("a", 2); return nil }) })
+	case 6: // a row is re-keyed while other goroutines look keys up and insert by key
+		kc := NewCollection(Options{Capacity: vndParam("cap")})
+		kc.CreateColumn("k", ForKey())
+		kc.CreateColumn("b", ForInt64())
+		kc.InsertKey("a", func(r Row) error { r.SetInt64("b", 1); return nil })
+		kc.InsertKey("bb", func(r Row) error { r.SetInt64("b", 2); return nil })
+		spawn(func() { kc.QueryKey("a", func(r Row) error { r.SetKey("c"); return nil }) })
+		spawn(func() { kc.QueryKey("bb", func(r Row) error { return nil }) })
+		spawn(func() { kc.UpsertKey("d", func(r Row) error { r.SetInt64("b", 3); return nil }) })
 	}
 	for i := 0; i < n; i++ {
 		vndJoin(t[i])
